@@ -16,7 +16,7 @@ class C28(M.MpiCheck):
     own = ('bytes', 'canary', 'late-copy', 'status-', 'count', 'trunc-', 'rc', 'match-', 'cross-comm', 'dup', 'overtake',
            'lost', 'probe-', 'req-twice', 'recv-order', 'stuck-match')
     probes = M.MpiCheck.probes + ('probe_wildcard_choice>1', 'probe_truncate')
-    budgets = {'quick': dict(runs=1500, wall=40), 'thorough': dict(runs=24000, wall=780)}
+    budgets = {'quick': dict(runs=1500, wall=22), 'thorough': dict(runs=24000, wall=780)}
 
     def nontrivial(self, plan, res):
         return res['stats'].get('recvs_checked', 0) >= 2
